@@ -4,6 +4,8 @@ From FV.C11 Require Import Model Entry Proofs.
 From FV.C11.gen Require Import Kernels.
 Import ListNotations.
 Open Scope R_scope.
+(* no sentence of this file may hold the shared Coq build lock for long *)
+Set Default Timeout 240.
 (* ---------------------------------------------------------- area kernels *)
 Lemma tri_crosses_affine M t p0 p1 p2 :
   k_tri_crosses ROps (aff ROps M t p0) (aff ROps M t p1) (aff ROps M t p2)
